@@ -224,10 +224,21 @@ func runCompJob(job *Job, res *Result) {
 	sort.Slice(res.MapSites, func(i, j int) bool { return res.MapSites[i].ID < res.MapSites[j].ID })
 }
 
+// longLine: "k:len" makes line k of every file written by writeLines len bytes long (longer than
+// the 4096-byte buffer of a bufio.Reader, shorter than the 64 kB token limit of a bufio.Scanner)
+var longLine = ""
+
 func writeLines(path string, n int, finalNewline bool) string {
 	lines := []string{}
 	for i := 0; i < n; i++ {
 		lines = append(lines, fmt.Sprintf("line%d", i))
+	}
+	if f := strings.Split(longLine, ":"); len(f) == 2 {
+		k, _ := strconv.Atoi(f[0])
+		l, _ := strconv.Atoi(f[1])
+		if k < n && l > 0 {
+			lines[k] = strings.Repeat("x", l)
+		}
 	}
 	c := strings.Join(lines, "\n")
 	if n > 0 && finalNewline {
@@ -308,6 +319,26 @@ func compScenarios(a map[string]string) *compScenario {
 						c.InParam(n).From(s.Out())
 						r := newPRecorder(wf, "rec_"+n)
 						r.InParamPort("in").From(c.OutParam(n))
+					}
+				} else if a["zip"] == "1" {
+					// ONE process takes a file from every out-port per task (lock-step)
+					c := components.NewFileCombinator(wf, "comb")
+					pat := "echo"
+					for _, n := range names {
+						pat += " {i:" + n + "}"
+					}
+					use := wf.NewProc("use", pat)
+					use.CustomExecute = func(t *sp.Task) {
+						vals := []string{}
+						for _, n := range names {
+							vals = append(vals, t.InPath(n))
+						}
+						vs.Note("recv:use:" + strings.Join(vals, "+"))
+					}
+					for i, n := range names {
+						s := components.NewFileSource(wf, "src_"+n, items[i]...)
+						c.In(n).From(s.Out())
+						use.In(n).From(c.Out(n))
 					}
 				} else {
 					c := components.NewFileCombinator(wf, "comb")
@@ -426,8 +457,13 @@ func compScenarios(a map[string]string) *compScenario {
 		per, _ := strconv.Atoi(a["per"])
 		nl := a["newline"] == "1"
 		content := ""
+		longLine = a["longline"]
+		ll := ""
+		if longLine != "" {
+			ll = "/long-line=" + longLine
+		}
 		return &compScenario{
-			desc:  fmt.Sprintf("splitter/lines=%d/per=%d/final-newline=%v", n, per, nl),
+			desc:  fmt.Sprintf("splitter/lines=%d/per=%d/final-newline=%v%s", n, per, nl, ll),
 			setup: func() { content = writeLines("in.txt", n, nl) },
 			build: func(wf *sp.Workflow) {
 				s := components.NewFileSource(wf, "src", "in.txt")
@@ -452,7 +488,7 @@ func compScenarios(a map[string]string) *compScenario {
 						return
 					}
 					if strings.Count(c, "\n") > per || (strings.Count(c, "\n") == per && !strings.HasSuffix(c, "\n")) {
-						add("splitter-part-too-long", fmt.Sprintf("part %s has more than %d lines: %q", p, per, c))
+						add("splitter-part-too-long", fmt.Sprintf("part %s has more than %d lines: %.200q", p, per, c))
 					}
 					cat += c
 				}
@@ -460,7 +496,7 @@ func compScenarios(a map[string]string) *compScenario {
 					if !nl && cat == content+"\n" {
 						add("splitter-adds-newline", fmt.Sprintf("the parts concatenate to the input plus a final newline (input without final newline, %d lines)", n))
 					} else {
-						add("splitter-concat", fmt.Sprintf("parts concatenate to %q, input is %q", cat, content))
+						add("splitter-concat", fmt.Sprintf("parts concatenate to %d bytes / %d lines %.120q, input is %d bytes / %d lines %.120q", len(cat), strings.Count(cat, "\n"), cat, len(content), strings.Count(content, "\n"), content))
 					}
 				}
 			},
@@ -501,7 +537,7 @@ func compScenarios(a map[string]string) *compScenario {
 						return
 					}
 					if strings.Count(c, "\n") > per {
-						add("splitter-part-too-long", fmt.Sprintf("part %s has more than %d lines: %q", p, per, c))
+						add("splitter-part-too-long", fmt.Sprintf("part %s has more than %d lines: %.200q", p, per, c))
 					}
 					i := strings.Index(p, ".split_")
 					if i < 0 {
